@@ -3,6 +3,9 @@ package props
 import (
 	"bytes"
 	"encoding/json"
+	"fmt"
+	"strconv"
+	"strings"
 
 	"verif/core"
 
@@ -25,8 +28,11 @@ import (
 // Every argument is valid, so the calls cannot fail on a correct tree; a panic
 // here would be parser/codec territory (not decided by these checks) and is
 // swallowed.
-func Noise(ctx *core.Ctx, r *core.Rng) {
-	if !r.Chance(0.125) {
+func Noise(ctx *core.Ctx, r *core.Rng) { NoiseP(ctx, r, 0.125) }
+
+// NoiseP is Noise with its own probability (used right before single cases).
+func NoiseP(ctx *core.Ctx, r *core.Rng, p float64) {
+	if !r.Chance(p) {
 		return
 	}
 	ctx.Stats.Inc("fault_fired/unrelated_library_calls_before_the_case")
@@ -35,7 +41,17 @@ func Noise(ctx *core.Ctx, r *core.Rng) {
 		seq := r.Bytes(r.Range(0, 60), "ACGTacgtNn")
 		switch r.Intn(11) {
 		case 10:
-			for range bed.Reader(bytes.NewReader([]byte("chr1\t0\t100\tn\t5\t+\t0\t100\t1,2,3\t3\t10,20,30\t0,40,70\nchr2\t5\t9\tm\t0\t-\t5\t9\t0,0,0\t2\t1,2\t0,3\n"))) {
+			var bb bytes.Buffer
+			for l := r.Range(1, 3); l > 0; l-- {
+				k := r.Range(1, 30)
+				var a, b []string
+				for i := 0; i < k; i++ {
+					a = append(a, strconv.Itoa(r.Range(0, 200)))
+					b = append(b, strconv.Itoa(r.Range(0, 200)))
+				}
+				fmt.Fprintf(&bb, "chr1\t0\t100\tn\t5\t+\t0\t100\t1,2,3\t%d\t%s\t%s\n", k, strings.Join(a, ","), strings.Join(b, ","))
+			}
+			for range bed.Reader(&bb) {
 				if r.Chance(0.2) {
 					break
 				}
